@@ -223,6 +223,8 @@ def valid_changes(cfg, model):
     L = model.schemes
     rs = [s for s in L if s in P.SCALE]
     cands = [{"default": L[-1]}, {"deprecated": [L[-1]]}, {"deprecated": "auto"}, {"deprecated": []}, {"all__vary_rounds": "5%"},
+             # the documented un-prefixed spellings of the context-wide settings, and an empty per-category list
+             {"vary_rounds": "7%"}, {"truncate_error": True}, {"admin__context__deprecated": []},
              {"admin__context__default": L[0]}, {"staff__context__deprecated": [L[0]]}, {"schemes": list(cfg["schemes"][1:]) if isinstance(cfg["schemes"], list) and len(L) > 1 else cfg["schemes"]}, {"schemes": list(reversed(cfg["schemes"])) if isinstance(cfg["schemes"], list) else cfg["schemes"]}]
     for s in rs[:2]:
         sc = P.SCALE[s]
@@ -393,7 +395,9 @@ def _eval_roundtrip(case, out, acc=None, tmpdir=None):
                 out.append((f"C10|update|differs_from_dict_update:{kind}", f"update(**{ch!r}) on {cfg!r} exports {nd!r}; dict-update of the export gives {fd!r}"))
             od = ctx.to_dict()
             touched = {k for k in set(od) | set(nd) if od.get(k, _MISSING) != nd.get(k, _MISSING)}
-            if not touched <= set(ch):
+            # (the un-prefixed global settings are exported in their all__ form)
+            allowed = set(ch) | {f"all__{k}" for k in ch if k in ("vary_rounds", "truncate_error")}
+            if not touched <= allowed:
                 out.append((f"C10|update|other_keys_changed:{kind}", f"update(**{ch!r}) on {cfg!r} also changed {sorted(touched - set(ch))}"))
             t2 = probe_table(merged if not custom else dict(cfg, **ch), seed)
             dg = "schemes" in ch  # stale dummy hash / keyword filtering can only show when the scheme list changes
@@ -833,6 +837,11 @@ EXTRAS = [
      "phpass__vary_rounds": 1, "admin__context__default": "phpass"},
     {"schemes": ["des_crypt", "postgres_md5", "bsdi_crypt"], "truncate_error": True, "bsdi_crypt__max_rounds": 301, "bsdi_crypt__vary_rounds": "12.5%"},
     {"schemes": ["md5_crypt", "des_crypt", "unix_disabled"], "unix_disabled__marker": "!%locked%", "deprecated": ["des_crypt"]},
+    # an EMPTY per-category deprecated list shadows the global one (nothing is deprecated for that category)
+    {"schemes": ["sha256_crypt", "md5_crypt", "des_crypt"], "deprecated": ["md5_crypt", "des_crypt"], "admin__context__deprecated": [],
+     "sha256_crypt__rounds": 1100},
+    {"schemes": ["pbkdf2_sha256", "md5_crypt"], "deprecated": "md5_crypt", "admin__context__deprecated": "", "pbkdf2_sha256__rounds": 150,
+     "all__vary_rounds": 0.1, "all__truncate_error": False},
 ]
 ROUTES = ("dict", "string", "path", "copy", "noop", "update")
 
